@@ -16,7 +16,7 @@ static void gen(Plan* p, Rng* r, int tier, long idx) {
     if (rng_coin(r, 1, 4)) plan_set(p, "in_kind", rng_coin(r, 1, 2) ? GEN_RANDOM : GEN_ALT);   /* bound-stressing content */
     sess_gen_cparams(p, r, GP_NOMT);
     if (rng_coin(r, 1, 4)) { plan_set(p, "dict_kind", rng_range(r, 1, 2)); plan_set(p, "dict_size", (int64_t)(8 + rng_size(r, 30 << 10))); plan_set(p, "dict_seed", (int64_t)(rng_u64(r) >> 2)); }
-    plan_set(p, "entry", (int64_t)rng_below(r, 5));
+    plan_set(p, "entry", (int64_t)rng_below(r, 7));   /* 0 compress2 1 compressCCtx 2 usingDict 3 usingCDict 4 stream single pass 5 stable output: flush everything, then end with nothing 6 buffer-less begin / continue / end(empty) */
     plan_set(p, "cap_seed", (int64_t)(rng_u64(r) >> 2));
     plan_set(p, "nframes", rng_coin(r, 1, 3) ? rng_range(r, 2, 4) : 1);
 }
@@ -34,10 +34,26 @@ static size_t compress_once(T* t, uint8_t* dst, size_t cap, const uint8_t* src, 
         if (ZSTD_isError(r)) return r;
         if (r != 0) { ZSTD_CCtx_reset(t->c, ZSTD_reset_session_only); return (size_t)-ZSTD_error_dstSize_tooSmall; }
         return out.pos; }
+    case 5: { ZSTD_inBuffer in; ZSTD_outBuffer out; size_t r; in.src = src; in.size = n; in.pos = 0; out.dst = dst; out.size = cap; out.pos = 0;
+        /* stable output buffer: the library writes straight into the caller's destination, epilogue included */
+        ZSTD_CCtx_setParameter(t->c, ZSTD_c_stableOutBuffer, 1);
+        r = ZSTD_compressStream2(t->c, &out, &in, ZSTD_e_flush);
+        if (!ZSTD_isError(r) && (r != 0 || in.pos < in.size)) r = (size_t)-ZSTD_error_dstSize_tooSmall;
+        if (!ZSTD_isError(r)) { r = ZSTD_compressStream2(t->c, &out, &in, ZSTD_e_end); if (!ZSTD_isError(r) && r != 0) r = (size_t)-ZSTD_error_dstSize_tooSmall; }
+        if (ZSTD_isError(r)) { ZSTD_CCtx_reset(t->c, ZSTD_reset_session_only); ZSTD_CCtx_setParameter(t->c, ZSTD_c_stableOutBuffer, 0); return r; }
+        ZSTD_CCtx_setParameter(t->c, ZSTD_c_stableOutBuffer, 0);
+        return out.pos; }
+    case 6: { size_t r, pos = 0; int const lvl = sess_get_cparam(t->p, "compressionLevel", 3);
+        if (sess_get_cparam(t->p, "checksumFlag", 0)) { ZSTD_parameters zp = ZSTD_getParams(lvl, 0, t->s.dict ? t->s.dict_size : 0); zp.fParams.checksumFlag = 1; zp.fParams.contentSizeFlag = 0; r = ZSTD_compressBegin_advanced(t->c, t->s.dict, t->s.dict ? t->s.dict_size : 0, zp, ZSTD_CONTENTSIZE_UNKNOWN); }
+        else r = t->s.dict ? ZSTD_compressBegin_usingDict(t->c, t->s.dict, t->s.dict_size, lvl) : ZSTD_compressBegin(t->c, lvl);
+        if (ZSTD_isError(r)) return r;
+        r = ZSTD_compressContinue(t->c, dst, cap, src, n); if (ZSTD_isError(r)) return r; pos = r;
+        r = ZSTD_compressEnd(t->c, dst + pos, cap - pos, NULL, 0); if (ZSTD_isError(r)) return r;   /* the epilogue alone: empty last block (+ checksum) */
+        return pos + r; }
     }
 }
 static T* g_t;
-static int is_simple_entry(int e) { return e == 1 || (e == 2 && g_t->s.dict) || (e == 3 && g_t->cd); }   /* these ignore advanced parameters by contract (2/3 fall back to compress2 without a dictionary) */
+static int is_simple_entry(int e) { return e == 1 || e == 6 || (e == 2 && g_t->s.dict) || (e == 3 && g_t->cd); }   /* these ignore advanced parameters by contract (2/3 fall back to compress2 without a dictionary) */
 
 static void try_compress_cap(T* t, size_t cap, size_t bound, size_t n) {
     uint8_t* dst = (uint8_t*)sim_buf_new(cap); uint8_t* src = (uint8_t*)sess_buf_get(0, n); size_t r; const char* e;
@@ -47,7 +63,7 @@ static void try_compress_cap(T* t, size_t cap, size_t bound, size_t n) {
     if ((e = sim_buf_check(src)) != NULL) sim_violation("src_overrun", "compression entry %d: %s", t->entry, e);
     if (!ZSTD_isError(r) && r > cap) sim_violation("capacity_exceeded", "compression entry %d returned %zu > capacity %zu", t->entry, r, cap);
     if (ZSTD_isError(r)) {
-        if (cap >= bound) sim_violation("bound_insufficient", "compression entry %d fails with capacity %zu >= ZSTD_compressBound(%zu)=%zu: %s", t->entry, cap, n, bound, ZSTD_getErrorName(r));
+        if (cap >= bound + (t->entry >= 5 ? 16 : 0)) sim_violation("bound_insufficient", "compression entry %d fails with capacity %zu >= ZSTD_compressBound(%zu)=%zu: %s", t->entry, cap, n, bound, ZSTD_getErrorName(r));
         if (ZSTD_getErrorCode(r) != ZSTD_error_dstSize_tooSmall) sim_violation("wrong_error", "capacity %zu too small is reported as: %s", cap, ZSTD_getErrorName(r));
         ZSTD_CCtx_reset(t->c, ZSTD_reset_session_only);
         sim_probe("c06.compress_too_small");
@@ -55,7 +71,7 @@ static void try_compress_cap(T* t, size_t cap, size_t bound, size_t n) {
         /* what was produced must be a correct frame */
         ZSTD_DCtx* d = ZSTD_createDCtx(); uint8_t* back = (uint8_t*)malloc(n + 1); size_t q;
         if (sess_get_cparam(t->p, "format", 0) == 1 && !is_simple_entry(t->entry)) ZSTD_DCtx_setParameter(d, ZSTD_d_format, ZSTD_f_zstd1_magicless);
-        if (t->s.dict && (t->entry == 0 || t->entry == 2 || t->entry == 3 || t->entry == 4)) ZSTD_DCtx_loadDictionary(d, t->s.dict, t->s.dict_size);
+        if (t->s.dict && (t->entry == 0 || t->entry == 2 || t->entry == 3 || t->entry == 4 || t->entry == 5 || t->entry == 6)) ZSTD_DCtx_loadDictionary(d, t->s.dict, t->s.dict_size);
         ZSTD_DCtx_setParameter(d, ZSTD_d_windowLogMax, 31);
         q = ZSTD_decompressDCtx(d, back, n, dst, r);
         if (ZSTD_isError(q) || q != n || (n && memcmp(back, t->s.in, n))) sim_violation("roundtrip_error", "output produced with capacity %zu does not round-trip: %s", cap, ZSTD_isError(q) ? ZSTD_getErrorName(q) : "mismatch");
@@ -67,11 +83,11 @@ static void try_compress_cap(T* t, size_t cap, size_t bound, size_t n) {
 
 static void exec(const Plan* p) {
     T t; size_t n, bound, csize; Rng rc; uint8_t* full; size_t k; const char* e; int nframes = (int)plan_get(p, "nframes", 1);
-    memset(&t, 0, sizeof t); t.p = p; g_t = &t; sess_init(&t.s); sess_make_input(&t.s, p); sess_make_dict(&t.s, p); t.entry = (int)plan_get(p, "entry", 0) % 5;
+    memset(&t, 0, sizeof t); t.p = p; g_t = &t; sess_init(&t.s); sess_make_input(&t.s, p); sess_make_dict(&t.s, p); t.entry = (int)plan_get(p, "entry", 0) % 7;
     n = t.s.in_size; bound = ZSTD_compressBound(n); rng_seed(&rc, (uint64_t)plan_get(p, "cap_seed", 1), "caps");
     t.c = ZSTD_createCCtx_advanced(sess_cmem());
     sess_apply_cparams(t.c, p); ZSTD_CCtx_setParameter(t.c, ZSTD_c_nbWorkers, 0);
-    if (t.s.dict && (t.entry == 0 || t.entry == 4)) ZSTD_CCtx_loadDictionary(t.c, t.s.dict, t.s.dict_size);
+    if (t.s.dict && (t.entry == 0 || t.entry == 4 || t.entry == 5)) ZSTD_CCtx_loadDictionary(t.c, t.s.dict, t.s.dict_size);
     if (t.s.dict && t.entry == 3) t.cd = ZSTD_createCDict(t.s.dict, t.s.dict_size, sess_get_cparam(p, "compressionLevel", 3));
     /* reference result with ample room */
     full = (uint8_t*)malloc(bound + 64); csize = compress_once(&t, full, bound + 64, t.s.in, n);
